@@ -132,8 +132,9 @@ def wl_sequential(ctx, rng, case_no):
                 kw = op[2]
                 p.update(t, **kw)
                 if "total" in kw:
+                    if kw["total"] != m.total:
+                        m.finish_fixed = None       # (the finish time may move only when the total CHANGES)
                     m.total = kw["total"]
-                    m.finish_fixed = None
                     interesting += 1
                 if "advance" in kw:
                     m.completed = m.completed + kw["advance"]
